@@ -4,7 +4,7 @@ import AioModel.C07
 Driver commands of property C07.
 
 `run <fixes> <limit> <lph> <keys> <label>…` → the state projection after every label, joined
-by `|`.  `<fixes>` = four 0/1 digits (f7 f8 race close); `<keys>` = `.`-separated key of each
+by `|` (`last …`: only the final projection).  `<fixes>` = four 0/1 digits (f7 f8 race close); `<keys>` = `.`-separated key of each
 task; labels: `s<t>` spawn, `k` tick, `o<t>`/`f<t>` attempt ok/failed, `c<t>` cancel,
 `m<t>` connect timeout, `r<t>`/`x<t>` release to pool / close, `l<c>` idle connection lost,
 `C` connector close, `p<k>.<k>…` shuffle order.
@@ -47,19 +47,29 @@ def dots (l : List Nat) : String := if l.isEmpty then "-" else ".".intercalate (
 def showFail : Fail → String
   | .cancelled => "X" | .timeout => "T" | .oserr => "E" | .closedErr => "Q"
 
-def showPc : Pc → String
-  | .idle => "i" | .start => "s" | .waiting => "w" | .creating _ => "c"
-  | .holding _ => "h" | .done => "d" | .failed f => showFail f
+def showTask (x : Task) : String :=
+  let bang := if x.extCancel || x.timedOut then "!" else ""
+  match x.pc with
+  | .idle => "i"
+  | .start => "s" ++ bang
+  | .waiting => (match x.fut with | .pending => "w" | .woken => "W" | .cancelled => "V") ++ bang
+  | .creating none => "c" ++ bang
+  | .creating (some true) => "c+" ++ bang
+  | .creating (some false) => "c-" ++ bang
+  | .holding c => s!"h{c}"
+  | .done => "d"
+  | .failed f => showFail f
 
 def showSt (nkeys : Nat) (s : St) : String :=
   let ks := List.range nkeys
   let per (f : Key → Nat) : String := ".".intercalate (ks.map (fun k => toString (f k)))
   let ph := s.acquired.countP (fun x => match x with | .ph _ => true | .conn _ => false)
   let opn := if s.conns.isEmpty then "-" else String.join (s.conns.map (fun c => showBool c.isOpen))
-  s!"acq={s.acquired.length} ph={ph} host={per (hostCount s)} " ++
-  s!"wait={per (fun k => s.waitq.countP (fun t => keyOf s t = k))} " ++
-  s!"idle={per (fun k => s.idle.countP (fun c => connKey s c = k))} ready={dots s.ready} " ++
-  s!"tasks={String.join (s.tasks.map (fun x => showPc x.pc))} open={opn} closed={showBool s.closed}"
+  let wq := if s.wkeys.isEmpty then "-" else
+    ";".intercalate (s.wkeys.map (fun k => s!"{k}:{dots (s.waitq.filter (fun t => keyOf s t = k))}"))
+  let idle := "/".intercalate (ks.map (fun k => dots (s.idle.filter (fun c => connKey s c = k))))
+  s!"acq={s.acquired.length} ph={ph} host={per (hostCount s)} wq={wq} idle={idle} ready={dots s.ready} " ++
+  s!"tasks={",".intercalate (s.tasks.map showTask)} open={opn} closed={showBool s.closed}"
 
 def handle : List String → String
   | "run" :: fx :: limit :: lph :: keys :: labs =>
@@ -70,6 +80,11 @@ def handle : List String → String
         let s := step fx acc.1 l
         (s, showSt nkeys s :: acc.2)) (init limit lph keys, [])
       "|".intercalate go.2.reverse
+    | _, _, _, _, _ => "bad-op"
+  | "last" :: fx :: limit :: lph :: keys :: labs =>
+    match parseFixes fx, limit.toNat?, lph.toNat?, parseNats keys, labs.mapM parseLabel with
+    | some fx, some limit, some lph, some keys, some labs =>
+      showSt (keys.foldl max 0 + 1) (run fx (init limit lph keys) labs)
     | _, _, _, _, _ => "bad-op"
   | _ => "bad-op"
 
